@@ -4,3 +4,5 @@ import FtProofs.Props.C17
 import FtProofs.CandGraphLemmas
 import FtProofs.Props.C18
 import FtProofs.SessionSpec
+import FtProofs.BookLemmas
+import FtProofs.Props.C06
